@@ -31,7 +31,7 @@ class _Scan(html.parser.HTMLParser):
             self.skip += 1
         if "id" in a and a["id"] is not None:
             self.ids.append(a["id"])
-        if tag == "a" and a.get("name"):
+        if tag == "a" and a.get("name") and a.get("name") != a.get("id"):
             self.ids.append(a["name"])
         for k in URL_ATTRS:
             if k in a and a[k] is not None:
